@@ -65,6 +65,12 @@ enum Summary {
     Min,
     Max,
 }
+#[derive(Copy, Clone)]
+pub struct Value {
+    pub start: u32,
+    pub end: u32,
+    pub value: f32,
+}
 
 // =====================================================================================
 // shims (ASSUMED; listed in NOTES.md)
@@ -81,6 +87,10 @@ impl IntToF64 for u64 { open spec fn as_int(self) -> int { self as int } }
 impl IntToF64 for usize { open spec fn as_int(self) -> int { self as int } }
 #[verifier::external_body]
 pub fn as_f64<T: IntToF64>(x: T) -> (r: f64) ensures r == f64_of_int(x.as_int()) { unimplemented!() }
+/// `v as f64` for an f32 (exact widening; uninterpreted here)
+pub uninterp spec fn f64_of(x: f32) -> f64;
+#[verifier::external_body]
+pub fn f64_of_f32(x: f32) -> (r: f64) ensures r == f64_of(x) { x as f64 }
 /// the value a result variable holds before the carved `match` assigns it: unknown
 #[verifier::external_body]
 pub fn unset_f64() -> (r: f64) { unimplemented!() }
@@ -233,11 +243,15 @@ spec fn bb_finish(flags: Seq<i32>, cells: Seq<f64>, summary: Summary, missing: f
         Summary::Mean => if some_gt(flags, 0) { sum_clamped_spec(cells, 0.0f64).div_spec(f64_of_int(isum(flags))) } else { missing },
     }
 }
+/// bigWig accumulator before a value is added: the stored one, or the initial one (Min/Max: NaN so that f64::min/max return the first value; Mean: 0.0)
+spec fn acc0(d: Option<(i32, f64)>, summary: Summary) -> (i32, f64) {
+    match d { Some(t) => t, None => match summary { Summary::Mean => (0i32, 0.0f64), _ => (0i32, spec_f64_nan()) } }
+}
 pub open spec fn imax(a: int, b: int) -> int { if a >= b { a } else { b } }
 pub open spec fn imin(a: int, b: int) -> int { if a <= b { a } else { b } }
 
 // ---- (a) to_array_bins: finalisation of a popped bin, inside the interval loop ----
-fn finish_bin_bwb_loop(front3: Option<(i32, f64)>, summary: Summary, missing: f64) -> (r: f64)
+fn finish_bin_bwb_loop(front3: Option<(i32, f64)>, summary: Summary, missing: f64, bin_size: f64) -> (r: f64)
     ensures
         
         !(summary is Mean) ==> r == bw_finish(front3, summary, missing),
@@ -264,7 +278,7 @@ fn finish_bin_bwb_loop(front3: Option<(i32, f64)>, summary: Summary, missing: f6
 }
 
 // ---- (a) to_array_bins: finalisation of a popped bin, the closing drain loop ----
-fn finish_bin_bwb_drain(front3: Option<(i32, f64)>, summary: Summary, missing: f64) -> (r: f64)
+fn finish_bin_bwb_drain(front3: Option<(i32, f64)>, summary: Summary, missing: f64, bin_size: f64) -> (r: f64)
     ensures
         
         !(summary is Mean) ==> r == bw_finish(front3, summary, missing),
@@ -291,7 +305,7 @@ fn finish_bin_bwb_drain(front3: Option<(i32, f64)>, summary: Summary, missing: f
 }
 
 // ---- (a) to_array_zoom: finalisation of a popped bin, inside the interval loop ----
-fn finish_bin_bwz_loop(front3: Option<(i32, f64)>, summary: Summary, missing: f64) -> (r: f64)
+fn finish_bin_bwz_loop(front3: Option<(i32, f64)>, summary: Summary, missing: f64, bin_size: f64) -> (r: f64)
     ensures
         
         !(summary is Mean) ==> r == bw_finish(front3, summary, missing),
@@ -318,7 +332,7 @@ fn finish_bin_bwz_loop(front3: Option<(i32, f64)>, summary: Summary, missing: f6
 }
 
 // ---- (a) to_array_zoom: finalisation of a popped bin, the closing drain loop ----
-fn finish_bin_bwz_drain(front3: Option<(i32, f64)>, summary: Summary, missing: f64) -> (r: f64)
+fn finish_bin_bwz_drain(front3: Option<(i32, f64)>, summary: Summary, missing: f64, bin_size: f64) -> (r: f64)
     ensures
         
         !(summary is Mean) ==> r == bw_finish(front3, summary, missing),
@@ -401,7 +415,7 @@ fn new_bin_bbz_new(bin: usize, bin_start: i32, bin_end: i32, missing: f64, bin_d
 }
 
 // ---- (b) to_entry_array_bins: finalisation of a popped bin over its per-base cells, inside the interval loop ----
-fn finish_entry_bin_bbb_loop(front3: Vec<i32>, front4: Vec<f64>, summary: Summary, missing: f64) -> (r: f64)
+fn finish_entry_bin_bbb_loop(front3: Vec<i32>, front4: Vec<f64>, summary: Summary, missing: f64, bin_size: f64) -> (r: f64)
     requires
         
         // what new_bin_* and bump_cells_* (below) establish; rules out the i32 overflow of `.sum::<i32>()`
@@ -434,7 +448,7 @@ fn finish_entry_bin_bbb_loop(front3: Vec<i32>, front4: Vec<f64>, summary: Summar
 }
 
 // ---- (b) to_entry_array_bins: finalisation of a popped bin over its per-base cells, the closing drain loop ----
-fn finish_entry_bin_bbb_drain(front3: Vec<i32>, front4: Vec<f64>, summary: Summary, missing: f64) -> (r: f64)
+fn finish_entry_bin_bbb_drain(front3: Vec<i32>, front4: Vec<f64>, summary: Summary, missing: f64, bin_size: f64) -> (r: f64)
     requires
         
         // what new_bin_* and bump_cells_* (below) establish; rules out the i32 overflow of `.sum::<i32>()`
@@ -467,7 +481,7 @@ fn finish_entry_bin_bbb_drain(front3: Vec<i32>, front4: Vec<f64>, summary: Summa
 }
 
 // ---- (b) to_entry_array_zoom: finalisation of a popped bin over its per-base cells, inside the interval loop ----
-fn finish_entry_bin_bbz_loop(front3: Vec<i32>, front4: Vec<f64>, summary: Summary, missing: f64) -> (r: f64)
+fn finish_entry_bin_bbz_loop(front3: Vec<i32>, front4: Vec<f64>, summary: Summary, missing: f64, bin_size: f64) -> (r: f64)
     requires
         
         // what new_bin_* and bump_cells_* (below) establish; rules out the i32 overflow of `.sum::<i32>()`
@@ -500,7 +514,7 @@ fn finish_entry_bin_bbz_loop(front3: Vec<i32>, front4: Vec<f64>, summary: Summar
 }
 
 // ---- (b) to_entry_array_zoom: finalisation of a popped bin over its per-base cells, the closing drain loop ----
-fn finish_entry_bin_bbz_drain(front3: Vec<i32>, front4: Vec<f64>, summary: Summary, missing: f64) -> (r: f64)
+fn finish_entry_bin_bbz_drain(front3: Vec<i32>, front4: Vec<f64>, summary: Summary, missing: f64, bin_size: f64) -> (r: f64)
     requires
         
         // what new_bin_* and bump_cells_* (below) establish; rules out the i32 overflow of `.sum::<i32>()`
@@ -603,6 +617,57 @@ fn bump_cells_bbb(bin_start: &i32, bin_end: &i32, interval_start: i32, interval_
                 let i = cell_mut(covered, k__);
                 *i = (*i).max(1);
             }
+}
+
+// ---- (d) to_array_bins: one value meets one bin: the accumulation step (`get_or_insert_with` + `match summary`) ----
+// `let (c, v) = data.get_or_insert_with(|| INIT);` -> the accumulator is copied out (`INIT` when absent), `c` / `v` borrow the
+// copy's two fields, and the copy is written back after the carved text (same effect as updating through the reference).
+fn accumulate_bwb(data: &mut Option<(i32, f64)>, summary: Summary, bin_start: &i32, bin_end: &i32, interval_start: i32, interval_end: i32, interval: &Value)
+    requires
+        
+        0 <= *bin_start <= *bin_end, 0 <= interval_start <= interval_end,
+        
+        // the count of a bin never exceeds its width (values are disjoint); stated, not proved here
+        *old(data) matches Some(t) ==> 0 <= t.0 && t.0 + (*bin_end - *bin_start) <= i32::MAX && t.0 - (interval_end - interval_start) >= i32::MIN,
+    ensures
+        
+        summary is Min ==> *final(data) == Some((acc0(*old(data), summary).0, fmin(acc0(*old(data), summary).1, f64_of(interval.value)))),
+        
+        summary is Max ==> *final(data) == Some((acc0(*old(data), summary).0, fmax(acc0(*old(data), summary).1, f64_of(interval.value)))),
+        
+        summary is Mean ==> *final(data) == Some((
+            (acc0(*old(data), summary).0 + (imin(*bin_end as int, interval_end as int) - imax(*bin_start as int, interval_start as int))) as i32,
+            acc0(*old(data), summary).1.add_spec(f64_of_int(imin(*bin_end as int, interval_end as int) - imax(*bin_start as int, interval_start as int)).mul_spec(f64_of(interval.value))))),
+{
+    proof { float_ax::float_det(); }
+
+            let mut t__: (i32, f64) = match *data { Some(t) => t, None => {
+                match summary {
+                    // min & max are defined for NAN and we are about to set it
+                    // can't use 0.0 because it may be either below or above the real value
+                    Summary::Min | Summary::Max => (0, fconst_f64_nan()),
+                    // addition is not defined for NAN
+                    Summary::Mean => (0, 0.0),
+                }
+            } };
+            let c = &mut t__.0;
+            let v = &mut t__.1;
+            match summary {
+                Summary::Min => {
+                    *v = v.min(f64_of_f32(interval.value));
+                }
+                Summary::Max => {
+                    *v = v.max(f64_of_f32(interval.value));
+                }
+                Summary::Mean => {
+                    let overlap_start = (*bin_start).max(interval_start);
+                    let overlap_end = (*bin_end).min(interval_end);
+                    let overlap_size: i32 = overlap_end - overlap_start;
+                    *v = *v + (as_f64(overlap_size) * f64_of_f32(interval.value));
+                    *c = *c + (overlap_size);
+                }
+            }
+            *data = Some(t__);
 }
 
 } // verus!
